@@ -7,6 +7,7 @@ use crate::spec::*;
 use crate::src::*;
 use buffer_redux::BufReader;
 use seq_io::fasta::{self, Record};
+use seq_io::policy::BufPolicy;
 use seq_io::policy::StdPolicy;
 
 pub struct FaState {
@@ -299,7 +300,7 @@ pub fn k_init_f5_c4<N: Nd>(nd: &mut N) {
 
 harnesses! {
     @reg registry2;
-    /// @meta props=C01,C17,C05:t,C03:t,C06:t tier=quick kind=K stage2=pub timeout=1500 mem=12 unwind=6 unwindset="first_byte:6;seq_io::fill_buf:4" bounds="fasta::Reader::init from New on every file of exactly 4 bytes at capacity 3 (blank prefix crossing one refill), whole reads"
+    /// @meta props=C01,C17,C06,C05:t,C03:t tier=quick kind=K stage2=pub timeout=3000 mem=28 unwind=6 unwindset="first_byte:6;seq_io::fill_buf:4" bounds="fasta::Reader::init from New on every file of exactly 4 bytes at capacity 3 (blank prefix crossing one refill), whole reads"
     fak_init_f4_c3 => k_init_f4_c3;
     /// @meta props=C01,C05,C17,C03,C06 tier=thorough kind=K stage2=pub timeout=3000 mem=16 unwind=8 unwindset="first_byte:7;seq_io::fill_buf:4" bounds="fasta::Reader::init from New on every file <= 5 bytes at capacity 3 (blank prefix crossing up to 2 refills), whole reads"
     fak_init_f5_c3 => k_init_f5_c3;
@@ -330,7 +331,9 @@ pub fn k_seek<N: Nd, const F: usize, const CAP: usize>(nd: &mut N) {
         v.push(nd.usize_in(0, CAP));
     }
     let st = FaState { start: p - off, search_pos: sp, line: line0, byte: p as u64, state };
-    let br = window::<F>(Src::plain(file, n), CAP, off);
+    let mut src = Src::<F>::chunked(nd, file, n);
+    src.chunk[0] = 0;
+    let br = window::<F>(src, CAP, off);
     let blen = br.buffer().len();
     nd.assume(p - off <= blen && sp <= blen);
     let mut r = fa_reader(br, &st, v);
@@ -373,6 +376,92 @@ pub fn k_seek_f8_c4<N: Nd>(nd: &mut N) {
 
 harnesses! {
     @reg registry3;
-    /// @meta props=C05,C04,C06:t tier=quick kind=K timeout=1500 mem=12 unwind=10 unwindset="seq_io::fill_buf:3" bounds="fasta::Reader::seek from every state, every window (capacity 4, every file offset) of every file <= 8 bytes to every target byte 0..=n (in-buffer shortcut and real seek + refill)"
+    /// @meta props=C05,C04,C06:t tier=quick kind=K timeout=1500 mem=12 unwind=10 unwindset="seq_io::fill_buf:8" bounds="fasta::Reader::seek (source delivering symbolic chunks) from every state, every window (capacity 4, every file offset) of every file <= 8 bytes to every target byte 0..=n (in-buffer shortcut and real seek + refill)"
     fak_seek_f8_c4 => k_seek_f8_c4;
+}
+
+/// K: `resume_incomplete_search` from an unfinished record in a completely filled buffer:
+/// compaction is preferred over growth, growth happens only when the record does not fit, an
+/// exact-count batch (make_room == false) never moves the buffer, and the record found afterwards
+/// is the reference record
+pub fn k_resume<N: Nd, const F: usize, const CAP: usize>(nd: &mut N) {
+    use crate::c09::RecPolicy;
+    let file: [u8; F] = any_file::<N, F>(nd);
+    let n = nd.usize_in(CAP, F);
+    let h = nd.usize_in(0, CAP - 1);
+    let make_room = nd.bool();
+    nd.assume(file[h] == b'>');
+    nd.note("format", b"fasta");
+    nd.note("file", &file[h..n]);
+    nd.note_num("cap", CAP as u64);
+    let f = &file[..n];
+    let exp = fa_record(f, h);
+    nd.assume(!exp.overflow);
+    // the record is not complete inside the first window (that is why the search is resumed)
+    nd.assume(!(exp.complete && exp.next < CAP));
+    // state as `search` leaves it on the full window file[0..CAP]
+    let last_is_lf = f[CAP - 1] == LF && CAP - 1 > h;
+    let mut v = Vec::with_capacity(8);
+    let mut i = 0;
+    while i < FA_MAXL {
+        if i < exp.nends && exp.ends[i] < CAP - 1 {
+            v.push(exp.ends[i]);
+        }
+        i += 1;
+    }
+    let st = FaState { start: h, search_pos: if last_is_lf { CAP - 1 } else { CAP }, line: 1, byte: h as u64, state: 2 };
+    let br = window::<F>(Src::plain(file, n), CAP, 0);
+    let pol = RecPolicy { answer: Some(2 * CAP), asked: 0, n: 0 };
+    let mut r = fasta::Reader::verif_from_parts(br, pol, st.start, v, st.line, st.byte, st.search_pos, st.state);
+    let res = r.verif_resume_incomplete_search(make_room);
+    // bytes needed to see the whole record: up to and including the next header byte, or one more
+    // than the rest of the input (the end of input is recognised by a buffer that is not full)
+    let needed = if exp.complete { exp.next - h + 1 } else { n - h + 1 };
+    let asked = r.policy().n;
+    match res {
+        Ok(found) => {
+            vassert!(found, "C01 after a refill the record is complete");
+            if make_room && needed <= CAP {
+                vassert!(asked == 0, "C09 the policy is not consulted when the record fits after compaction");
+                vassert!(r.verif_buf_reader().capacity() == CAP, "C09 no growth when the record fits");
+            }
+            if asked > 0 {
+                vassert!(r.policy().asked == CAP, "C09 the policy is asked with the current capacity");
+            }
+            if !make_room {
+                vassert!(r.verif_start() == h, "C04 an exact-count batch never moves the buffer under the records it already holds");
+                let b = r.verif_buf_reader().buffer();
+                let mut ok = true;
+                let mut j = 0;
+                while j < CAP {
+                    if b[j] != file[j] {
+                        ok = false;
+                    }
+                    j += 1;
+                }
+                vassert!(ok, "C04 an exact-count batch keeps the buffered bytes in place");
+            }
+            let off = h - r.verif_start();
+            let sp = r.verif_seq_pos();
+            vassert!(sp.len() == exp.nends && ends_match(sp, &exp, off, exp.nends), "C01 the record found after the refill has exactly the reference line ends");
+            cover!(make_room && h > 0 && asked == 0, "compaction sufficed");
+            cover!(make_room && asked > 0, "growth after compaction");
+            cover!(!make_room, "exact-count batch");
+        }
+        Err(e) => {
+            vassert!(false, "C01 no error with a permitting policy");
+            std::mem::forget(e);
+        }
+    }
+    std::mem::forget(r);
+}
+
+pub fn k_resume_f8_c4<N: Nd>(nd: &mut N) {
+    k_resume::<N, 8, 4>(nd)
+}
+
+// not registered: the solver exhausts 24 GB on this kernel (grow -> realloc of the real buffer-redux inside the loop)
+#[cfg(not(kani))]
+pub fn registry4() -> Vec<(&'static str, fn(&mut crate::nd::TapeNd))> {
+    vec![]
 }
